@@ -12,7 +12,7 @@ EXPLANATION = (
     "independent oracle formula: None iff no registered URI prefix is a prefix of u, otherwise canonical prefix of "
     "the owner of the longest matching URI prefix ++ delimiter ++ u[len(prefix):]. Because record contents are "
     "symbolic, one shape covers every overlap lattice and every permutation of a concrete record list; incremental "
-    "jobs additionally build the same converter through add_record from every split point, 'interleaved' jobs also query the converter between the additions.")
+    "jobs additionally build the same converter through add_record from every split point, 'interleaved' jobs also query the converter between the additions, the 'chained' job queries a converter after it has been an input of chain().")
 BOUNDS = dict(records="<= 5 (quick <= 3)", uri_prefix_synonyms_per_record="<= 2", strings="unbounded length, full z3 alphabet",
               delimiter="':' and an arbitrary non-empty symbolic string")
 OUTSIDE = ["more than 5 records or more than 2 URI-prefix synonyms per record", "non-strict converters",
@@ -33,7 +33,7 @@ def jobs(tier):
              ("construct", [[0, 0], [0, 0], [0, 0]], False),
              ("incremental", [[0, 1], [0, 0]], False), ("incremental", [[0, 0], [0, 0]], True),
              ("interleaved", [[0, 0], [0, 0]], False), ("interleaved", [[0, 1], [0, 0]], True),
-             ("incremental", [[0, 0], [0, 1]], False)]
+             ("incremental", [[0, 0], [0, 1]], False), ("chained", [[0, 0], [0, 0]], False)]
     for fn, sh, sd in quick:
         J(fn, sh, sd)
     if tier == "thorough":
@@ -64,6 +64,15 @@ def build(job):  # noqa: F811 - harness entry point (shadows common.build delibe
         u = eng.var("uri")
         if fn == "construct":
             c = _build(eng, recs, delim)
+        elif fn == "chained":
+            # the queried converter has been an *input* of chain() together with a converter that holds another URI
+            # prefix for the same CURIE prefix; afterwards it must still answer by what its own records register
+            base = api.Converter([api.Record(prefix=recs[0].prefix, uri_prefix=recs[0].uri_prefix)], delimiter=delim)
+            extra = api.Converter([api.Record(prefix=recs[0].prefix, uri_prefix=recs[1].uri_prefix)], delimiter=delim)
+            api.chain([base, extra])
+            c = base
+            from .common import Rec
+            recs = [Rec(r.prefix, r.uri_prefix, list(r.prefix_synonyms), list(r.uri_prefix_synonyms)) for r in c.records]
         else:
             k = eng.choice("split", list(range(len(recs))))
             c = api.Converter([api.Record(**r.kwargs()) for r in recs[:k]], delimiter=delim)
